@@ -67,6 +67,12 @@ CHECKS = {
   note="Trusted: TLC, the in-process driver wrapper (explicit -functions -flat; other options reset to pristine defaults per run). Web mixes are sampled (seeded), not enumerated.",
   technique="TLA+ session state machine model-checked by TLC; every behaviour replayed on the real interactive loop and web handlers with fresh-session references",
   design_ref="DESIGN.md 5/C10"),
+ "C12": dict(
+  category="model_checking",
+  text="Symbolize.tla is a state machine that fixes a catalogue profile, parses a mode and then chooses, in the order the code consults them, the FUTURE ANSWERS of the plug-ins (object file: open ok/error/build-id mismatch, SourceLine one/two frames/none/error per location; symbol service: all/subset/unasked/garbage/error/empty names). Every behaviour is replayed on the real symbolizer.Symbolizer with scripted ObjTool/ObjFile and a scripted HTTP transport; the before/after tables are decided by TraceSymbolize.tla: the frame condition (samples, values, labels, stack depth and order, location ids/addresses/mappings, mapping ranges, header untouched), functions only appended, no non-empty name emptied, validity with unique ids, symbolised mappings left alone unless force, mode none = identity.",
+  note="Plug-in behaviours are answer CLASSES with one scripted representative each. Bounds: 3 locations, 2 mappings, 14 modes.",
+  technique="TLA+ generator of plug-in answer scripts enumerated by TLC, replayed on the real symbolizer; TLC trace validation of the before/after frame condition",
+  design_ref="DESIGN.md 5/C12"),
 }
 
 NOT_YET = "check not built yet in this session (planned in DESIGN.md section 5)"
